@@ -15,7 +15,7 @@ for r in mut:
     al = "; ".join(f"**{k}** `{v}`" for k, v in sorted(r.get("alarms", {}).items())) or "—"
     out.append(f"| {r['id']} | {r['expect'].split(':')[0] if r['kind']=='breaking' else 'benign'} | {r['status']} | {al} |")
 base = {}
-for bf in ("seeded/baseline_results.json", "seeded/baseline_round2_results.json", "seeded/baseline_round3_results.json", "seeded/baseline_round4_results.json", "seeded/baseline_round5_results.json", "seeded/baseline_round6_results.json"):
+for bf in ("seeded/baseline_results.json", "seeded/baseline_round2_results.json", "seeded/baseline_round3_results.json", "seeded/baseline_round4_results.json", "seeded/baseline_round5_results.json", "seeded/baseline_round6_results.json", "seeded/baseline_round7_results.json"):
     for r in (load(bf, {}) or {}).get("results", []):
         base[r["id"]] = r
 cur = {r["id"]: r for r in load("seeded/last_full_results.json", [])}
